@@ -99,4 +99,6 @@ def run(ctx):
             rep.ob('R06.5', 'envelope MAC comparison (keyed from the randomized password) guards the Ok path', env_guard, '', w, sn)
     ns = len(ctx.suite_names)
     rep.floor('R06', 'key occurrences established', n, ns * (1 + 8 + 8 + 8))
+    from rules import profile
+    profile.check(ctx, rep, 'R06.P', ['sreg_start', 'creg_finish', 'slog_start', 'clog_finish'])
     return rep
